@@ -7,6 +7,19 @@ Proof.
   revert k; induction stops_ as [|s r IH]; intros k H; simpl; [reflexivity|].
   rewrite (H s (or_introl eq_refl)). rewrite IH by (intros; apply H; right; auto). reflexivity.
 Qed.
+(* whatever the stop() calls do, every simulator is stopped once, in order *)
+Lemma shutdown_stops_all k stops_ : fst (shutdown k stops_) = seq k (length stops_).
+Proof.
+  revert k; induction stops_ as [|s r IH]; intros k; simpl; [reflexivity|].
+  specialize (IH (S k)). destruct (shutdown (S k) r) as [l e]. simpl in *. rewrite IH. reflexivity.
+Qed.
+(* ... and a stop() that raises surfaces as an error of run() *)
+Lemma shutdown_error k stops_ : (exists e, In (SRaises e) stops_) -> snd (shutdown k stops_) <> None.
+Proof.
+  revert k; induction stops_ as [|s r IH]; intros k [e H]; [destruct H|]. simpl.
+  destruct (shutdown (S k) r) as [l e'] eqn:E. simpl. destruct s as [|e0]; [|discriminate].
+  destruct H as [H|H]; [discriminate|]. specialize (IH (S k) (ex_intro _ e H)). rewrite E in IH. exact IH.
+Qed.
 
 (* C14: whatever fails and wherever, if every stop() returns, then every simulator is stopped exactly once (in order),
    the loop is closed, and the failure surfaces as an exception or as the logged remote error - never as success *)
@@ -33,7 +46,17 @@ Proof.
   { induction l as [|p l IH]; intros [|j] Hj; simpl in *; try discriminate; auto. rewrite Hj. reflexivity. }
   apply G. exact H.
 Qed.
-(* the oracle assumption is needed: a stop() that raises leaves later simulators unstopped and the loop open *)
-Theorem stop_raising_breaks_containment_refuted :
-  exists procs stops_, let r := world_run procs stops_ in loop_closed r = false /\ length (stops r) < length stops_.
-Proof. exists [PFails ESimulationError; PWaiting], [SRaises EOtherError; SReturns]. simpl. split; [reflexivity|lia]. Qed.
+(* since the repair of F25 no assumption on stop() is needed for the clean-up: whatever fails during the run and whatever the
+   stop() calls do, every simulator is stopped exactly once, in order, and the loop is closed; a stop() that raises makes
+   run() raise and is never reported as success *)
+Theorem cleanup_is_unconditional procs stops_ :
+  let r := world_run procs stops_ in
+  stops r = seq 0 (length stops_) /\ loop_closed r = true /\
+  ((exists e, In (SRaises e) stops_) -> raised r <> None /\ success_logged r = false).
+Proof.
+  unfold world_run. pose proof (shutdown_stops_all 0 stops_) as Hs. pose proof (shutdown_error 0 stops_) as He.
+  destruct (shutdown 0 stops_) as [stopped stop_exn]. simpl in Hs, He. subst stopped.
+  destruct (first_failure procs) as [[| | |]|]; destruct stop_exn as [e|]; cbn;
+    (split; [reflexivity|split; [reflexivity|]]); intros Hx;
+    first [split; [discriminate|reflexivity] | exfalso; apply (He Hx); reflexivity].
+Qed.
